@@ -14,6 +14,18 @@ HERE = os.path.dirname(os.path.dirname(os.path.abspath(__file__)))
 TEMPLATE = open(os.path.join(HERE, "seeded", "prompts", "round1_template.txt")).read()
 
 HINTS = {
+    "7": (
+        "Aim for defects that are HARD to expose and of a kind not tried yet (see the list above). Think about what a thorough tester of this "
+        "property would most plausibly NOT have in their harness: an interaction with a feature that belongs to a different part of the simulator "
+        "(the other ISA, the visualisation getters, the performance-metric text, the CLI-independent settings object), an operand or address that "
+        "is legal but never written that way (negative, >= 2^32, a fixed-width integer object instead of an int, a bool), an order of calls that "
+        "the public API allows but the GUI never produces, a state reached only after an error was raised and caught, a program or configuration "
+        "of an unusual size (prime associativity, one-word memory, 4095 or 4096 instructions, a loop of several hundred iterations), or a value that "
+        "is special to Python rather than to the architecture (hash collisions of -1 and -2, int/float conversion above 2^53, str.splitlines and "
+        "str.isdigit on non-ASCII text, dict ordering, default arguments evaluated once). The defect must still clearly violate the property as "
+        "stated, through its public observation points, and the full test suite must still pass. If you truly cannot find a second one of a new "
+        "kind, deliver one and say so."
+    ),
     "6": (
         "Aim for defects that are HARD to expose and of a kind not tried yet. The statement above has several clauses: pick the clause "
         "(or the secondary observable, or the corner of the quantified domain) that looks LEAST likely to be exercised by somebody "
@@ -53,6 +65,12 @@ def main():
         for mf in sorted(glob.glob(os.path.join(HERE, "seeded", pid + "-*", "meta.json"))):
             m = json.load(open(mf))
             earlier.append(f"- {(m.get('summary') or '')[:420]}  [needed: {(m.get('needs') or '')[:300]}]")
+        # changes of a round whose confirmation is still running (not in seeded/ yet): their own .json files in the worktree
+        have = " ".join(earlier)
+        for jf in sorted(glob.glob(os.path.join(wt, os.environ.get("EXTRA_OUT", "out-none"), "*.json"))):
+            m = json.load(open(jf))
+            if (m.get("summary") or "")[:80] not in have:
+                earlier.append(f"- {(m.get('summary') or '')[:420]}  [needed: {(m.get('needs') or '')[:300]}]")
         extra = ""
         if earlier:
             extra = (f"\nThis is round {rnd}. In earlier rounds the following changes were already produced for this property — do NOT repeat them "
